@@ -72,8 +72,8 @@ func init() {
 				"located":   "two concrete contents, 2..4 (thorough 1..6) pixels per module, quiet zone 4 (and 0..2), four rotations, mirrored or not, through binariser, detector and decoder; Data Matrix: two concrete contents padded by 10 pixels",
 			}
 		},
-		Exhaustive: func(tier string) bool { return false },
-		Outside: []string{"'never different content' for arbitrary damaged or mis-sampled grids rests on the Reed-Solomon/BCH/check-digit layers (C04, C05, C10) and is not re-established through the detectors here", "free content through the locating path (detector control flow depends on every pixel: not encodable within reach); the located tasks are concrete paths", "Data Matrix rotation (the detector's corner ordering) beyond the upright padded case", "non-integer scales, perspective, noise"},
+		Exhaustive:  func(tier string) bool { return false },
+		Outside:     []string{"'never different content' for arbitrary damaged or mis-sampled grids rests on the Reed-Solomon/BCH/check-digit layers (C04, C05, C10) and is not re-established through the detectors here", "free content through the locating path (detector control flow depends on every pixel: not encodable within reach); the located tasks are concrete paths", "Data Matrix rotation (the detector's corner ordering) beyond the upright padded case", "non-integer scales, perspective, noise"},
 		Stubs:       []string{"generateECBytes -> verifStubEC and (*Decoder).correctErrors -> no-op in the QR mirror tasks"},
 		Assumptions: commonAssumptions,
 	}
